@@ -7,7 +7,7 @@ set -u
 wt=/tmp/wt_matrix_$$
 git -C /repo worktree add -q --detach "$wt" HEAD || exit 2
 trap "git -C /repo worktree remove --force $wt; rm -rf /tmp/ev_matrix_$$" EXIT
-out=/verif/seeded/MATRIX.md
+out=${OUT:-/verif/seeded/MATRIX.md}
 tmp=$out.tmp
 echo "# seeded changes x checks (quick tier, /repo $(git -C /repo rev-parse --short HEAD), /verif $(git -C /verif rev-parse --short HEAD))" > $tmp
 echo "" >> $tmp
